@@ -7,6 +7,10 @@ import CppUtil.Gen.Thread
 namespace CppUtil.Props
 open CppUtil CppUtil.IdMgr
 
+/-- tie G: the HeartBeater accessors have the shape the model assumes — in particular a thread "has an ID" exactly when
+    its ID pointer is non-null (so it claims a slot once per incarnation, whatever references a client holds) -/
+theorem c14_accessors_as_modelled : Gen.heartBeaterAccessorsAsModelled = true := by decide
+
 /-- every reservation flag that is set belongs to exactly one thread between its claim and its release
     step; in particular, once all threads have exited, every flag is clear -/
 theorem c14_all_exited_all_free (n : Nat) (hn : 0 < n) (ef : Bool) (nthreads : Nat) (acts : List Act) (s : St)
